@@ -28,7 +28,7 @@ ENTRIES = {
                 "of the waiter alone, always gets through once all guards finished dropping; a task may end by return or by "
                 "panic (the unwinding drops the guard) and a caller may be cancelled; wrong designs (notify before "
                 "release, arm after the check, guard owned by the caller, no wake-up on a panic unwind) are shown to fail. Every generated behaviour for "
-                "1..3 guards with every combination of returning and panicking tasks (16 / 896 / 79264 behaviours; quick: all for 1 and 2, every 48th for 3; thorough: all, plus every 8th of the 628088 four-guard behaviours) is forced on real OS threads through cfg(eigerco_lumina_verif) schedule points "
+                "1..3 guards with every combination of returning and panicking tasks (16 / 896 / 79264 behaviours; quick: all for 1 and 2, every 48th for 3; thorough: every 2nd for 3 plus every 16th of the 628088 four-guard behaviours) is forced on real OS threads through cfg(eigerco_lumina_verif) schedule points "
                 "inside counter.rs, comparing count and waiter position with the model after each step and "
                 "requiring the real waiter to return. Unforced multi-thread runs (std threads, blocking pool, "
                 "tokio tasks, seeded jitter at the points) and RedbStore::close after operations whose callers were "
@@ -92,8 +92,8 @@ def run(ck):
             cfg = ck.cfg_with("Gen_Counter.cfg", {"N": n, "ExitKinds": kinds}, name=f"Gen_Counter_{n}.cfg")
             p, _ = ck.tlc_gen("Gen_Counter", cfg, f"cases{n}.ndjson", tag=f"gen{n}", count_stats=False, heap="12g")
             # forced: all behaviours for N <= 2; N = 3: every 48th in the quick tier (a forced run costs 3 ms on an
-            # idle machine, 30 ms under load), all in the thorough tier; N = 4: every 8th
-            every = 8 if n >= 4 else (48 if n == 3 and ck.quick else 1)
+            # idle machine, 30 ms under load), every 2nd in the thorough tier; N = 4: every 16th
+            every = 16 if n >= 4 else ((48 if ck.quick else 2) if n == 3 else 1)
             with open(p) as f:
                 for k, line in enumerate(f):
                     if k % every == 0:
